@@ -111,8 +111,6 @@ def _ranges_are_values(ctx):
             try:
                 r = mk()
                 before = tuple(r.constraints)
-                if not isinstance(r.constraints, tuple):
-                    why = "the constraints are held in a %s" % type(r.constraints).__name__
                 hash(r)
                 if why is None and not (r == rc(constraints=tuple(before))) or hash(r) != hash(rc(constraints=tuple(before))):
                     why = why or "the range differs from (or hashes differently from) the range built from the tuple of the same constraints"
